@@ -274,4 +274,30 @@ theorem rewards_nonneg : ∀ (as : List A) (s : State), ∀ x ∈ rewards n D op
     · exact (reward_step n D op s a).2
     · exact ih _ x hx
 
+/-- **`step` is a function of (state, move) only.**  The model's `_step` returns a NEW state and never touches
+the one it is given: running `pre` and then `as` is running `as` from the state reached by `pre` — whatever
+other branch `bs` was or will be explored from that same state. -/
+theorem step_pure (s : State) (pre as : List A) :
+    final n D op s (pre ++ as) = final n D op (final n D op s pre) as := by
+  simp [final, List.foldl_append]
+
+/-- **C09 under branching.**  Explore two different continuations `as` and `bs` from the state reached by a
+common prefix `pre` (look-ahead, stored transitions, stepping the same state twice): on EACH branch the
+bookkeeping is exact and depends only on that branch's own moves — `cost_bsf` is the length of that branch's
+`rec_best`, a lower bound for every tour seen on that branch, and the branch state is the one computed from
+the common state alone. -/
+theorem branching (rec0 : Rec) (pre as bs : List A) :
+    let common := final n D op (reset n D rec0) pre
+    let fa := final n D op common as
+    let fb := final n D op common bs
+    (fa.costBsf = cost n D fa.recBest ∧ fa.costCur = cost n D fa.recCur ∧
+      ∀ s ∈ trace n D op (reset n D rec0) (pre ++ as), fa.costBsf ≤ cost n D s.recCur) ∧
+    (fb.costBsf = cost n D fb.recBest ∧ fb.costCur = cost n D fb.recCur ∧
+      ∀ s ∈ trace n D op (reset n D rec0) (pre ++ bs), fb.costBsf ≤ cost n D s.recCur) := by
+  intro common fa fb
+  have ha := invariants n D op rec0 (pre ++ as)
+  have hb := invariants n D op rec0 (pre ++ bs)
+  simp only [step_pure] at ha hb
+  exact ⟨⟨ha.2.1, ha.1, ha.2.2.1⟩, ⟨hb.2.1, hb.1, hb.2.2.1⟩⟩
+
 end Rl4co.Improve.Bsf
